@@ -36,6 +36,17 @@ func main() {
 		cmdCheck(os.Args[2:])
 	case "replay":
 		cmdReplay(os.Args[2:])
+	case "split":
+		// debugging aid: run the cube-and-conquer solver on a dumped query
+		b, err := os.ReadFile(os.Args[2])
+		if err != nil {
+			fmt.Fprintln(os.Stderr, err)
+			os.Exit(2)
+		}
+		initWorkDir()
+		r, ok := solveSplit(string(b), 10, "dbg")
+		fmt.Println(ok, r.Status, r.Solver, r.Secs)
+		os.RemoveAll(workDir)
 	case "ssa":
 		ctx, err := Load("/repo", []string{os.Args[2]})
 		if err != nil {
@@ -115,6 +126,17 @@ func runAll(ctx *Ctx, sel func(*FuncContract) bool, secs int, thorough bool, job
 		}(i, or)
 	}
 	wg.Wait()
+	// Second chance: what timed out while everything ran in parallel is retried one obligation
+	// at a time (all cores to one query and its cubes) with twice the time limit. A time-out
+	// under load says something about the load, not about the obligation.
+	for i, or := range all {
+		if or.Obl.IsCover || (or.Res.Status != "timeout" && or.Res.Status != "unknown") {
+			continue
+		}
+		or.Res = Solve(or.Func.VC, or.Obl, 2*secs, thorough, fmt.Sprintf("o%dx", i))
+		or.Reason = ""
+		classify(or)
+	}
 	return frs, all
 }
 
